@@ -29,7 +29,7 @@ ASSUMPTIONS = ["picosvg's own failures count as the build stopping (they exit no
 BUDGET = {"quick": 64, "thorough": 1200}
 TIMEOUT = {"quick": 1500, "thorough": 7200}
 
-DEFECTS = ["dup_spelling", "dup_case", "dup_leading_zero", "malformed_xml", "truncated", "not_svg", "pattern_fill", "missing_paint_server", "bad_color",
+DEFECTS = ["dup_spelling", "dup_case", "dup_leading_zero", "dup_other_dir", "malformed_xml", "truncated", "not_svg", "pattern_fill", "missing_paint_server", "bad_color",
            "bad_spread", "palette_conflict", "masters_mismatch", "cbdt_too_big", "api_dup_name"]
 VECTOR = ["glyf_colr_1", "glyf_colr_0", "glyf", "picosvg", "cff_colr_1"]
 
@@ -89,6 +89,8 @@ def enumerate_cases(tier):
         if d not in ("masters_mismatch", "api_dup_name"):
             fmt = "cbdt" if d == "cbdt_too_big" else "glyf_colr_1"
             yield {"defect": d, "fmt": fmt, "cps": cps, "pos": 3, "seq_tail": None, "mm": None}
+    for fmt in ("picosvg", "untouchedsvg", "cbdt"):
+        yield {"defect": "dup_other_dir", "fmt": fmt, "cps": cps, "pos": 2, "seq_tail": None, "mm": None}
     for pos, fmt in ((1, "glyf_colr_1"), (2, "glyf_colr_0"), (1, "glyf_colr_0"), (2, "cff_colr_1")):  # conflicts at palette entries 0, 5, 1
         yield {"defect": "palette_conflict", "fmt": fmt, "cps": cps, "pos": pos, "seq_tail": None, "mm": None}
 
@@ -117,6 +119,10 @@ def plant(case):
         bad = [up if up != fname([tgt]) else "emoji_u%05x.svg" % tgt, good_svg(k), [tgt], k]
     elif d == "dup_leading_zero":
         bad = ["emoji_u%06x.svg" % tgt, good_svg(k), [tgt], k]
+    elif d == "dup_other_dir":
+        # the same file name in a second directory, with a valid source of that directory sorting between the two by path
+        bad = ["@b/" + fname([tgt]), good_svg(k), [tgt], k]
+        files.append(["@b/" + fname([0x23]), good_svg(k + 1), [0x23], k + 1])
     elif d == "malformed_xml":
         bad = [fname([0x1F6A0]), "<svg xmlns='http://www.w3.org/2000/svg' viewBox='0 0 10 10'><path d='M0,0 L1,1'", None, None]
     elif d == "truncated":
@@ -222,12 +228,13 @@ def judge(case):
             files = []
         else:
             files, extra = plant(case)
+            where = lambda name: ("srcb/" + name[3:]) if name.startswith("@b/") else ("src/" + name)
             for name, text, _, _ in files:
-                ws.write("src/" + name, text)
+                ws.write(where(name), text)
             args = ["nanoemoji", "--build_dir", "build", "--color_format", fmt, "--keep_glyph_names"] + extra
             if fmt in ("cbdt", "sbix") and not extra:
                 args += ["--bitmap_resolution", "32"]
-            args += ["src/" + f[0] for f in files]
+            args += [where(f[0]) for f in files]
         t0 = time.time()
         rc, out = ws.run(args, ninja_j=4)
         fonts = [f for f in fonts_in(ws.path("build")) if not f.endswith(".ufo")]
